@@ -443,6 +443,28 @@ Example seed_once_demo :
          demo_heap 0) = [Some 13; Some 15]%Z.
 Proof. vm_compute. reflexivity. Qed.
 
+(* ------------------------------------------------------------------ the pickle route (round 2b) *)
+
+(* Under a multi-process or distributed scheduler the caller's processor reaches every run through a
+   pickle round trip (the custom __getstate__ / __setstate__ of ModelGroup, the default protocol
+   elsewhere) before Processor.replace copies it.  The regenerated policy of that round trip aliases
+   nothing and drops none of the configuration-carrying fields, so it is a fresh isomorphic block
+   like the deep copy, and the frame statement holds for it as well *)
+Theorem C06_pickle_route :
+  policy_ok src_pickle_policy = true /\ policy_complete src_pickle_policy = true /\
+  C06_frame_statement src_pickle_policy Deep.
+Proof.
+  assert (Hpol : policy_ok src_pickle_policy = true) by (vm_compute; reflexivity).
+  split; [exact Hpol|]. split; [vm_compute; reflexivity|].
+  intros params res run Hfr rs s0 p sn out H x Hx.
+  eapply observe_frame_locs; eauto.
+Qed.
+Print Assumptions C06_pickle_route.
+
+Example pickle_demo :
+  exists s', deepcopy src_pickle_policy demo_heap 0 = Some (s', 11) /\ length s' = 22.
+Proof. vm_compute. eexists. split; reflexivity. Qed.
+
 (* and the shallow copy of the whole processor (copy.copy) shares everything below it *)
 Example shallow_shares :
   exists s' c, shallow demo_heap 0 = Some (s', c) /\ reach s' c 1.
